@@ -66,37 +66,40 @@ func New(config ...Config) fiber.Handler {
 			reqHeader.SetCookie(cookie.key, cookie.value)
 		}
 
-		// Continue stack
-		err := c.Next()
-
 		// Encrypt response cookies.
+		// This is deferred so that it also happens when a handler further down the stack panics:
+		// a recover middleware registered in front of this one turns the panic into an error
+		// response, and that response must not carry the cookies set so far in clear.
 		// Looking a cookie up and setting it by name while visiting only ever reaches the
 		// first cookie with that name (a handler can add several with the Set-Cookie
 		// header), so the cookies are copied out and added back one by one.
-		resHeader := &c.Response().Header
-		var resCookies []responseCookie
-		resHeader.VisitAllCookie(func(key, value []byte) {
-			resCookies = append(resCookies, responseCookie{key: string(key), raw: string(value)})
-		})
-		if len(resCookies) > 0 {
-			resHeader.DelAllCookies()
-		}
-		for i := range resCookies {
-			cookie := &resCookies[i]
-			if !isDisabled(cookie.key, cfg.Except) {
-				cookieValue := fasthttp.Cookie{}
-				cookieValue.Parse(cookie.raw) //nolint:errcheck // same as ResponseHeader.Cookie
-				encryptedValue, err := cfg.Encryptor(string(cookieValue.Value()), cfg.Key)
-				if err != nil {
-					panic(err)
-				}
-
-				cookieValue.SetValue(encryptedValue)
-				cookie.raw = cookieValue.String()
+		defer func() {
+			resHeader := &c.Response().Header
+			var resCookies []responseCookie
+			resHeader.VisitAllCookie(func(key, value []byte) {
+				resCookies = append(resCookies, responseCookie{key: string(key), raw: string(value)})
+			})
+			if len(resCookies) > 0 {
+				resHeader.DelAllCookies()
 			}
-			resHeader.Add(fiber.HeaderSetCookie, cookie.raw)
-		}
+			for i := range resCookies {
+				cookie := &resCookies[i]
+				if !isDisabled(cookie.key, cfg.Except) {
+					cookieValue := fasthttp.Cookie{}
+					cookieValue.Parse(cookie.raw) //nolint:errcheck // same as ResponseHeader.Cookie
+					encryptedValue, err := cfg.Encryptor(string(cookieValue.Value()), cfg.Key)
+					if err != nil {
+						panic(err)
+					}
 
-		return err
+					cookieValue.SetValue(encryptedValue)
+					cookie.raw = cookieValue.String()
+				}
+				resHeader.Add(fiber.HeaderSetCookie, cookie.raw)
+			}
+		}()
+
+		// Continue stack
+		return c.Next()
 	}
 }
